@@ -36,6 +36,7 @@ import (
 //	G12 — a slot shared by all peers is not held while waiting for one peer's bytes
 //	G13 — Close takes no lock that an operation holds across a fetch of log history
 //	M7 — a list serialised into content-addressed data is not ordered by map iteration
+//	G14 — the replicator's workers run under the request context bound to its own, which Stop cancels
 //	G10 — what Drop destroys is what the store was opened on: cache.Destroy names the same
 //	     directory and address as the cache.Load of the function that builds the store
 func rulesExtra5(c *Ctx) {
@@ -52,6 +53,7 @@ func rulesExtra5(c *Ctx) {
 	c.ruleG12()
 	c.ruleG13()
 	c.ruleM7()
+	c.ruleG14()
 }
 
 // keyParamOf: the string parameter a datastore key expression is built from
@@ -2274,4 +2276,134 @@ func (c *Ctx) ruleM7() {
 		// the write list is reached through accessors this rule does not follow: nothing is claimed
 		c.ok("M7", "no-list-stored-for-serialisation-found", 0, "no assignment of a list to a field that is serialised was singled out (the field is reached through accessors): not judged")
 	}
+}
+
+// ---------------------------------------------------------------------------
+// G14
+
+// ruleG14: Stop ends the fetches in flight. The replicator's Stop cancels a context of its
+// own (a field of context type); a fetch started by a request runs under the REQUEST's
+// context — the instance's, the user's — which Close does not cancel. In the exported
+// function that starts the workers, the context handed on to them is derived from a call to a
+// same-package function that reads that field (the request context bound to the replicator's
+// own), not the request context as it came in.
+func (c *Ctx) ruleG14() {
+	fns := c.fnsInPkg("stores/replicator")
+	readsRootCtx := func(h *ssa.Function) bool {
+		found := false
+		for _, g := range withClosures(h) {
+			eachInstr(g, func(in ssa.Instruction) {
+				if fa, ok := in.(*ssa.FieldAddr); ok {
+					if strings.HasSuffix(typeStr(fieldVarOf(fa).Type()), "context.Context") {
+						found = true
+					}
+				}
+			})
+		}
+		return found
+	}
+	isFetch := func(call ssa.CallInstruction) bool { return calleeFull(call) == logMod+".NewFromEntryHash" }
+	// the fetch may be many helpers below the entry point (worker, item loop, fetch step, …)
+	memo := map[*ssa.Function]int{}
+	var reaches func(h *ssa.Function, d int) bool
+	reaches = func(h *ssa.Function, d int) bool {
+		if h == nil || h.Blocks == nil || d > 8 {
+			return false
+		}
+		switch memo[h] {
+		case 1:
+			return false
+		case 2:
+			return true
+		}
+		memo[h] = 1
+		found := false
+		for _, g := range withClosures(h) {
+			eachCall(g, func(call ssa.CallInstruction) {
+				if found {
+					return
+				}
+				if isFetch(call) {
+					found = true
+					return
+				}
+				if x := call.Common().StaticCallee(); x != nil && x.Pkg == h.Pkg {
+					if reaches(topLevel(x), d+1) {
+						found = true
+					}
+				}
+			})
+		}
+		if found {
+			memo[h] = 2
+		} else {
+			memo[h] = 0
+		}
+		return found
+	}
+	n := 0
+	for _, f := range fns {
+		if c.isTestFile(f.Pos()) || f.Parent() != nil || f.Blocks == nil || f.Object() == nil || !f.Object().Exported() {
+			continue
+		}
+		// a request entry point: takes a context and starts goroutines that reach the fetch
+		var ctxParam *ssa.Parameter
+		for _, p := range f.Params {
+			if strings.HasSuffix(typeStr(p.Type()), "context.Context") {
+				ctxParam = p
+			}
+		}
+		if ctxParam == nil || !reaches(f, 0) {
+			continue
+		}
+		if !c.isControlFn(f) {
+			n++
+		}
+		cons := fnKey(f) + "#fetches-end-with-Stop"
+		// contexts bound to the replicator's own
+		var bound []ssa.Value
+		raw0 := derived([]ssa.Value{ctxParam}, flowOpts{throughCalls: true})
+		eachCall(f, func(call ssa.CallInstruction) {
+			h := call.Common().StaticCallee()
+			if h != nil && h.Blocks != nil && h.Pkg == f.Pkg && call.Value() != nil && readsRootCtx(h) {
+				takes := false
+				for _, a := range call.Common().Args {
+					if a == ssa.Value(ctxParam) || (raw0[a] && strings.HasSuffix(typeStr(a.Type()), "context.Context")) {
+						takes = true
+					}
+				}
+				if takes {
+					bound = append(bound, call.Value())
+				}
+			}
+		})
+		d := derived(bound, flowOpts{intoClosures: true, throughCalls: true})
+		raw := derived([]ssa.Value{ctxParam}, flowOpts{intoClosures: true, throughCalls: true})
+		var badAt ssa.Instruction
+		for _, g := range withClosures(f) {
+			eachCall(g, func(call ssa.CallInstruction) {
+				h := call.Common().StaticCallee()
+				if h == nil || h.Blocks == nil || h.Pkg != f.Pkg || !reaches(topLevel(h), 0) || badAt != nil {
+					return
+				}
+				for _, a := range call.Common().Args {
+					if !strings.HasSuffix(typeStr(a.Type()), "context.Context") {
+						continue
+					}
+					if raw[a] && !d[a] {
+						badAt = call
+					}
+				}
+			})
+		}
+		switch {
+		case len(bound) == 0:
+			c.bad("G14", cons, f.Pos(), "the request's context is handed to the fetch workers as it came in, not bound to the replicator's own: Stop (which Close calls) cancels only the replicator's context, so a fetch already running — under the instance's or the user's context — keeps going after the store is closed, until that other context ends")
+		case badAt != nil:
+			c.bad("G14", cons, badAt.Pos(), "a worker is started with the request's context as it came in although a context bound to the replicator's own was made: Stop does not end that fetch")
+		default:
+			c.ok("G14", cons, f.Pos(), "the workers run under the request's context bound to the replicator's own, which Stop cancels")
+		}
+	}
+	c.floor("G14", "replicator request entry points", n, 1)
 }
